@@ -1,5 +1,6 @@
 """C16 — INI parser: robustness on all byte strings, documented grammar round trip
 (model PV.Model.Ini, spec PV.Spec.Ini, theorems PV.Props.C16)."""
+import itertools
 import pv
 import diffrun
 
@@ -125,6 +126,8 @@ def gen_value(rng, chk, q):
         chk.bump("value:empty-quoted")
         return b""
     v = fix_ends(rng, v, {34, 39} if q == "n" else set(), forbid)
+    if (q == "d" and v == b"''") or (q == "s" and v == b'""'):
+        v = b"q" + v          # WF excludes a quoted value that is itself the other kind of empty quotes
     chk.bump("value:" + t)
     return v
 
@@ -287,6 +290,7 @@ def f3_probe():
 # malformed stream
 
 SMALL = b"abk1= \t\r\n\"';#[]{}\xe9"
+EX_ALPHABET = b"a=\"';[] "
 
 
 def raw_case(data):
@@ -376,7 +380,7 @@ def gen_raw(rng, chk, valid_pool):
                        b"[s]\nk='\n", b"[s]\nk=\"\"\n", b"[s]\nk=''\n", b"[s]\nk=\"'\n", b"[s]\r\nk=v\r\n", b"[s]\nk=v", b"[s]", b"[s]\n[s]\nk=v\n", b"[s]\nk=v\n[s]\nk=w\n",
                        b"[a]\nk=1\n[b]\n[a]\nj=2\n", b"\xef\xbb\xbf", b"\xef\xbb", b"\xef", b"\xfe\xff", b"\xff\xfe\x00\x00[s]\nk=v\n", b"\x00\x00\xfe\xff[s]\nk=v\n",
                        b"[s]\n\xef\xbb\xbfk=v\n", b"[s]\n\xfe\xffk=v\n", b"\x00[s]\nk=v\n", b"[s]\nk\x00=v\n", b"[s]\nk=v\x00w\n", b"[s] ; c\nk=v\n", b"[s]\nk # c = d\n",
-                       b"[s]\na#b = c\n", b"[s]\nk = \" v \"\n", b"[s]\nk = \"v\n", b"[s]\nk = v1 = v2\n", b"[s]\n[k=v]\n", b"[s]\n[k]=v\n", b"[[s]]\nk=v\n", b"[s]x]\nk=v\n",
+                       b"[s]\na#b = c\n", b"[s]\nk = \" v \"\n", b"[s]\nk = \"''\"\n", b"[s]\nk = '\"\"'\n", b"[s]\nk = \"v\n", b"[s]\nk = v1 = v2\n", b"[s]\n[k=v]\n", b"[s]\n[k]=v\n", b"[[s]]\nk=v\n", b"[s]x]\nk=v\n",
                        b"[s]\nk={1 2 3}\n", b"[s]\nk={}\n", b"[s]\nk={ }\n", b"[s]\nk={a} b}\n", b"[s]\nk=99999999999999999999\n", b"[s]\nk=1e99999999999\n",
                        b"[s]\n" + b"k=v\n" * 50, b"[s]\n" + b"".join(b"k%d=%d\n" % (i, i) for i in range(40))])
 
@@ -436,14 +440,27 @@ def signature_of(ops, r):
     return None
 
 
+def finish(chk):
+    """chk.finish(), tolerating the KeyError pv.Check.finish raises in its log line when the proof is broken
+    (it pops 'discharged' first); the evidence file is already written at that point"""
+    try:
+        return chk.finish()
+    except KeyError:
+        return 1 if chk.violations else 0
+
+
 def run(chk):
     cfg = pv.repo_config()
     proof_ok, driver_ok, detail = pv.proof_stage(chk, ["PV.Props.C16"])
+    # a source shape the translator does not recognise means the theorems no longer speak about this code
+    if any(d.startswith("extractor: ") and ("pinifile.c" in d or "pstring.c" in d or "gen_ini" in d) for d in detail):
+        proof_ok = False
+        chk.cov["discharged"] = 0
     try:
         exe = pv.build_harness("ini", cfg, ["ini.c"], repo_files=None, san="asan")
     except pv.BuildError as e:
         chk.violation(str(e), "harness for C16 does not build against the current source", no_input=True, suffix="txt")
-        return chk.finish()
+        return finish(chk)
     fam = diffrun.Family("ini", exe, spec_view=spec_view, timeout=300)
     thorough = chk.tier == "thorough"
     rng = chk.rng
@@ -451,18 +468,23 @@ def run(chk):
     cases += pv.load_corpus("C16")
     cases.append(f3_probe())
     # (i) documents of the grammar: small ones first so that a failure is reported on a small file
-    ndoc_small, ndoc = (600, 6000) if thorough else (250, 1100)
+    ndoc_small, ndoc = (3000, 40000) if thorough else (300, 1700)
     docs = [gen_doc(rng, chk, 1) for _ in range(ndoc_small)] + [gen_doc(rng, chk, rng.choice([2, 3, 4, 6])) for _ in range(ndoc)]
     cases += docs
     # (ii) malformed stream
-    nraw = 8000 if thorough else 1300
+    nraw = 60000 if thorough else 2200
     pool = [render_ops(d) for d in docs[:400]]
     raws = []
     for _ in range(nraw):
         data = gen_raw(rng, chk, pool)
         raws.append(raw_case(data))
     cases += raws
-    chk.cov["generated"] = {"grammar_documents": len(docs), "malformed_files": len(raws)}
+    # (iii) exhaustive small scope: every line of up to `depth` symbols inside a section
+    depth = 5 if thorough else 4
+    ex = [raw_case(b"[s]\n" + bytes(t) + b"\n") for n in range(1, depth + 1) for t in itertools.product(EX_ALPHABET, repeat=n)]
+    cases += ex
+    chk.cov["exhaustive_small_scope"] = {"alphabet": EX_ALPHABET.decode(), "max_line_length": depth, "files": len(ex)}
+    chk.cov["generated"] = {"grammar_documents": len(docs), "malformed_files": len(raws), "exhaustive_lines": len(ex)}
     found, corr, thm = diffrun.campaign(chk, fam, cases, proof_ok, detail, signature_of, "C16", batch=60)
     diffrun.conclude(chk, found, corr, thm, proof_ok and driver_ok, detail, "C16 INI parser")
     chk.cov["rule"] = ("one case = one file, given as pieces (one op per physical line) followed by parse/gparse; (i) files rendered from random documents "
@@ -470,6 +492,7 @@ def run(chk):
                        "BOM, line ends, lines padded up to exactly 1024 bytes — compared with the model dump and with the spec's `meaning`; "
                        "(ii) malformed files: mutated valid files, small-alphabet noise, random bytes, NULs, physical lines of 1021..1030 and 2047..5000 bytes, "
                        "BOM fragments, lone brackets/quotes/'=' — compared with the model dump, first token = consistency oracle of the harness, ASan+UBSan abort = violation; "
+                       "(iii) every line of up to %d symbols over the alphabet a = \" ' ; [ ] SP inside a section (complete for that scope); " % depth +
                        "a case is distinct by the hash of its op file, non-trivial when it has more than one op; branch_hits = distribution of generated constructs")
     chk.cov["exhaustive"] = False
     chk.assumptions += [
@@ -481,4 +504,4 @@ def run(chk):
         "allocation never fails in this check (C18 covers failure)",
         "the spec column is produced for documents satisfying PV.IniSpec.WF only: distinct section names, non-empty unquoted values, no blanks directly inside quotes, no NUL, lines <= 1024 bytes, no line that starts like a byte-order mark",
     ]
-    return chk.finish()
+    return finish(chk)
